@@ -19,6 +19,9 @@ DOCS = {
     "D3": "# H [l](/a \"t\") ![i](/s)\n\nsetext\n===\n\n    code\n\n***\n\\* &amp; <http://x.y> line  \nbreak\n\n"
           "# H [l](/a \"t\") ![i](/s)\n\n\\* &amp; <http://x.y> &amp; [l](/a \"t\")\n",
 }
+# nesting exactly at the limits (20 for commonmark / zero, 100 for js-default) and one below: sensitive to any budget
+# (nesting, recursion) that does not start afresh with every call
+DOCS["D4"] = "".join("[" * n + "a" + "]" * n + "(/u)\n\n" for n in (20, 19, 100, 99)) + "> " * 19 + "q\n"
 CHAINS = ["core", "block", "inline", "inline2"]
 TERM = ["paragraph", "reference", "blockquote", "list"]
 
@@ -370,12 +373,12 @@ def execute(hist_idx):
             if "verif_inline" in md.get_active_rules()["inline"] and "paragraph" in md.get_active_rules()["block"]:
                 f = {"op": "fault", "i": e["i"], "doc": "D2", "site": "inline", "exc": ("ValueError", "KeyError")[n % 2]}
                 out.append(w.step(f, idx + n))
-                for d in ("D1", "D2"):
+                for d in ("D4", "D2"):
                     out.append(w.step({"op": "parse", "i": e["i"], "api": "render", "doc": d, "env": "omitted"}, idx))
         out.append(w.step(e, idx + n))
         if e["op"] == "fault":
             # the statement: identical results for subsequent parses
-            for d in ("D1", "D2", "D3"):
+            for d in ("D1", "D2", "D3", "D4"):
                 out.append(w.step({"op": "parse", "i": e["i"], "api": "render", "doc": d, "env": "omitted"}, idx))
     return {"ev": out}
 
